@@ -300,6 +300,9 @@ cleanup:
  *
  */
 int KSI_DataHash_fromImprint(KSI_CTX *ctx, const unsigned char *imprint, size_t imprint_length, KSI_DataHash **hash) {
+	if (imprint == NULL) return KSI_INVALID_ARGUMENT;
+	/* An imprint holds at least the algorithm id. */
+	if (imprint_length == 0) return KSI_INVALID_FORMAT;
 	return KSI_DataHash_fromDigest(ctx, *imprint, imprint + 1, imprint_length - 1, hash);
 }
 
